@@ -1023,6 +1023,8 @@ def judge_c09(ctx, ex):
         return
     for label in la:
         yield ("statement order changes the instance count of %s" % label, fig_differs(ex, la[label].n_instances, lb[label].n_instances), None)
+        if la[label].stem != lb[label].stem:
+            yield ("statement order changes the IRI stem of %s: %r vs %r" % (label, la[label].stem, lb[label].stem), True, None)
     va, vb = statements_view(a["schema"]), statements_view(b["schema"])
     tie_free = not any(t in ctx["structure"]["tags"] for t in ("ref-tie", "mixed-typed-values", "iri+bnode"))
     for label in va:
